@@ -21,7 +21,7 @@ def St.cfg (st : St) : Cfg :=
     sink := fun p k => (st.sinks.getD p []).getD k false }
 
 def parseOut : Char → Option Outcome
-  | 'p' => some .pass | 'r' => some .replace | 'd' => some .drop | 'e' => some .err | _ => none
+  | 'p' => some .pass | 'r' => some .replace | 'd' => some .drop | 'e' => some .err | 'E' => some .err | _ => none
 
 def showGot (g : List (Nat × Nat × Bool)) : String :=
   let xs := (g.map (fun (p, k, w) => s!"{p}/{k}/{if w then "w" else "c"}")).mergeSort (fun a b => decide (a ≤ b))
